@@ -144,8 +144,10 @@ class SolverRun:
         self.params = SolverParameters(**kw)
         self.density = density if density is not None else 10
         self.out = ""
+        self.xlog = []       # curve coordinates of the trials in the order they were made (through a listener)
         with quiet() as buf:
             self.solver = Solver(self.problem, parameters=self.params)
+            self.solver.AddListener(_XLog(self.xlog))
             for l in listeners:
                 self.solver.AddListener(l)
         self.out += buf.getvalue()
@@ -171,6 +173,25 @@ class SolverRun:
         p = self.problem
         return Evolvent(p.lowerBoundOfFloatVariables, p.upperBoundOfFloatVariables, p.numberOfFloatVariables,
                         self.density)
+
+
+class _XLog(Listener):
+    """harness-internal: remembers the coordinates of the new trials of every iteration call"""
+
+    def __init__(self, sink):
+        self.sink = sink
+
+    def BeforeMethodStart(self, method):
+        pass
+
+    def OnEndIteration(self, savedNewPoints, solution=None):
+        try:
+            self.sink.extend(p.GetX() for p in savedNewPoints)
+        except Exception:
+            self.sink.append(None)
+
+    def OnMethodStop(self, *a, **k):
+        pass
 
 
 class Recorder(Listener):
